@@ -307,6 +307,44 @@ func checkRDF(c rdfCase) *vk.Failure {
 			return vk.Failf("c14n-statement-count/"+strings.SplitN(fn.name, "(", 2)[0], "%s returned %d statements for %d distinct input statements", fn.name, len(ca), len(qs))
 		}
 	}
+	// a reused destination holding the statements of an earlier, labelled
+	// dataset must not leak into the result
+	{
+		dirty := func(n int) []*rdf.Statement {
+			// the destination must have the length of the source
+			d := make([]*rdf.Statement, 0, n)
+			for i := 0; i < n; i++ {
+				st := &rdf.Statement{}
+				st.Subject, _ = term(tref{1, 7}, "d", nil)
+				st.Predicate, _ = term(tref{1, 8}, "d", nil)
+				st.Object, _ = term(tref{0, i % nBlank}, "d", nil)
+				st.Label, _ = term(tref{1, 60 + i%2}, "d", nil)
+				d = append(d, st)
+			}
+			return d
+		}
+		type dstFn struct {
+			name string
+			f    func(dst, src []*rdf.Statement) ([]*rdf.Statement, error)
+		}
+		fns := []dstFn{{"URDNA2015", rdf.URDNA2015}}
+		if !c.Labels {
+			fns = append(fns, dstFn{"URGNA2012", rdf.URGNA2012}, dstFn{"C14n", func(dst, src []*rdf.Statement) ([]*rdf.Statement, error) {
+				_, terms := rdf.IsoCanonicalHashes(src, false, true, newHash(c.Hash), make([]byte, newHash(c.Hash).Size()))
+				return rdf.C14n(dst, src, terms)
+			}})
+		}
+		for _, fn := range fns {
+			fresh, err1 := fn.f(nil, build(qs, "b", nil, nil))
+			reused, err2 := fn.f(dirty(len(qs)), build(qs, "b", nil, nil))
+			if err1 != nil || err2 != nil {
+				return vk.Failf("c14n-error/"+fn.name, "%v %v", err1, err2)
+			}
+			if !eqStrings(sortedStrings(fresh), sortedStrings(reused)) {
+				return vk.Failf("c14n-reused-dst/"+fn.name, "%s gives a different result into a destination that holds the statements of an earlier call:\n%s\nvs (nil destination)\n%s", fn.name, strings.Join(sortedStrings(reused), "\n"), strings.Join(sortedStrings(fresh), "\n"))
+			}
+		}
+	}
 	if !c.Labels && !rdf.Isomorphic(a, b, c.Decomp, newHash(c.Hash)) {
 		return vk.Failf("isomorphic-false-for-relabelling", "Isomorphic(D, relabelled D) = false (decomp=%v hash=%d)", c.Decomp, c.Hash)
 	}
